@@ -37,6 +37,16 @@ def literal_text(f, fb=None, depth=0):
     out = []
 
     def emit(fn, d):
+        # local strings built from literals and the prefix (`const std::string es = _prefix + "ctx.entry_set";`) are text as well
+        strlocals = {}
+        for n in fn.walk():
+            if n['k'] == 'DeclStmt':
+                for dcl in n.get('decls', []):
+                    if 'lid' in dcl and 'string' in (dcl.get('t') or '') and isinstance(dcl.get('init'), dict):
+                        parts = []
+                        tpl._flatten_plus(dcl['init'], parts)
+                        if any(p_['k'] == 'StringLiteral' for p_ in parts):
+                            strlocals[dcl['lid']] = parts
         # statements in source order: stream insertions and calls to helper writers
         items = []
         for n in fn.walk():
@@ -57,9 +67,15 @@ def literal_text(f, fb=None, depth=0):
                 continue
             ops = []
             tpl.flatten(payload, ops)
+            flat = []
             for o in ops[1:]:
                 oo = strip(o)
-                src = line if d else oo['loc'][1]
+                if oo is not None and oo['k'] == 'DeclRefExpr' and oo.get('ref', {}).get('lid') in strlocals:
+                    flat += [(strip(p_), oo['loc'][1]) for p_ in strlocals[oo['ref']['lid']]]
+                else:
+                    flat.append((oo, oo['loc'][1]))
+            for oo, oline in flat:
+                src = line if d else oline
                 if oo['k'] == 'StringLiteral':
                     out.append((oo.get('str', ''), src))
                 elif oo['k'] == 'DeclRefExpr' and oo['ref'].get('name') == 'endl':
@@ -678,9 +694,13 @@ def state_ids_resolve(rep, fb, rule='R06.17'):
         mangled, 'under the id as written as well' if plain else ('adaptCode maps state ids' if maps_in_adapt else
         'NOT under the id as written, and adaptCode does not map it: cond="config[b2]" becomes ROOT_config[ROOT_b2] with an implicit `hidden int ROOT_b2` = 0 - the root, always active - unless the id happens to be upper case')))
     wv = fb.fn('uscxml::ChartToPromela::writeVariables')
-    skips = [a for a in wv.walk() if a['k'] in ('ForStmt', 'CXXForRangeStmt', 'CallExpr', 'CXXMemberCallExpr') and any(
-        y['k'] == 'MemberExpr' and y.get('ref', {}).get('name') == '_states' for y in sub(a)) and any(
-        lp['k'] == 'WhileStmt' and any(z.get('ref', {}).get('name') == 'typeIter' or 'typeIter' in (fb.text(z) if z['k'] == 'DeclRefExpr' else '') for z in sub(lp['c'][0])) for lp in wv.ancestors(a))]
+    # the loop that writes the implicit declarations (`hidden <type> <name>;` for identifiers found in the code)
+    decl_loops = [lp for lp in wv.walk() if lp['k'] in ('ForStmt', 'WhileStmt', 'CXXForRangeStmt') and any(
+        y['k'] == 'StringLiteral' and (y.get('str') or '').startswith('hidden ') for y in sub(lp['c'][-1] or {})) and any(
+        y.get('callee', {}).get('q', '').endswith('::declForRange') for y in sub(lp['c'][-1] or {}))]
+    if not decl_loops:
+        raise AnalysisBroken('writeVariables: the loop that declares implicit variables was not found')
+    skips = [lp for lp in decl_loops if any(y['k'] == 'MemberExpr' and y.get('ref', {}).get('name') == '_states' for y in sub(lp['c'][-1]))]
     rep.check(bool(skips) or maps_in_adapt, rule, 'writeVariables|state ids are no variables', wv.where(), 'the loop that declares implicit variables %s' % (
         'looks the identifier up among the state ids' if skips else 'never looks at the state ids: a state id used in config[..] is declared `hidden int`'))
 
@@ -698,8 +718,15 @@ def field_widths(rep, fba, rule='R06.19'):
     writes = [n for n in an.walk() if n['k'] in ('BinaryOperator', 'CXXOperatorCallExpr') and n.get('op') == '=' and any(
         y['k'] == 'MemberExpr' and y.get('ref', {}).get('name') == 'largestDelay' for y in sub(n['c'][-2]))]
     rep.minimum(rule, len(writes), 1, 'assignments to largestDelay')
-    def names(c):
-        return {y.get('ref', {}).get('name') for y in sub(c)}
+    binit = {d_['lid']: d_['init'] for s_ in an.walk() if s_['k'] == 'DeclStmt' for d_ in s_.get('decls', []) if 'lid' in d_ and isinstance(d_.get('init'), dict)}
+
+    def names(c, depth=0):
+        out = {y.get('ref', {}).get('name') for y in sub(c)}
+        if depth < 3:
+            for y in sub(c):
+                if y['k'] == 'DeclRefExpr' and y.get('ref', {}).get('lid') in binit:
+                    out |= names(binit[y['ref']['lid']], depth + 1)      # `const bool hasDelayExpr = HAS_ATTR(send, delayexpr)`
+        return out
     widened = False
     for w in writes:
         for a in an.ancestors(w):
